@@ -137,9 +137,12 @@ def check(spec, ctx):
                     if len(hits) != 1:
                         raise Violation("DUPLICATES-ATTR", "%s: duplicates are not supplied modules" % where)
                     idx.append(hits[0])
-                if len(idx) != 2 or idx[0] == idx[1] or tuple(sorted(idx)) not in want.dup_pairs:
-                    raise Violation("DUPLICATES-ATTR", "%s: DuplicateModules names modules %r, "
-                                    "colliding pairs are %r" % (where, idx, want.dup_pairs))
+                named = sorted(set(idx))
+                pairs = [(a, b) for i, a in enumerate(named) for b in named[i + 1:]]
+                if len(named) < 2 or not any(pr in want.dup_pairs for pr in pairs):
+                    raise Violation("DUPLICATES-ATTR", "%s: DuplicateModules names modules %r, which do not "
+                                    "include two different colliding modules (colliding pairs: %r)"
+                                    % (where, idx, want.dup_pairs))
             ctx.event("outcome:" + name)
         else:
             product, mods, unused = res[1], res[2], res[3]
